@@ -719,6 +719,24 @@ func (e *Enc) subAddr(st types.Type, i int, ref string) string {
 	return "(" + name + " " + ref + ")"
 }
 
+// allocSubObjects marks the embedded struct fields of a freshly allocated object as fresh too.
+func (e *Enc) allocSubObjects(cur *pathState, ref string, t types.Type) {
+	u, ok := t.Underlying().(*types.Struct)
+	if !ok {
+		return
+	}
+	a := e.allocComp()
+	for i := 0; i < u.NumFields(); i++ {
+		ft := u.Field(i).Type()
+		if isObjStruct(ft) {
+			sub := e.subAddr(t, i, ref)
+			e.assume(not(sel(e.get(cur.st, a), sub)))
+			e.set(cur.st, a, store(e.get(cur.st, a), sub, "true"))
+			e.allocSubObjects(cur, sub, ft)
+		}
+	}
+}
+
 func (e *Enc) newObject(cur *pathState, base string) string {
 	r := e.fresh(base)
 	e.declare(r, "Ref")
@@ -769,6 +787,7 @@ func (e *Enc) execInstr(fr *Frame, ins ssa.Instruction, cur *pathState) {
 		ft := st.Underlying().(*types.Struct).Field(x.Field).Type()
 		if isObjStruct(ft) {
 			e.setReg(fr, x, Val{T: e.subAddr(st, x.Field, base.T), S: "Ref"})
+			e.assumeIf(cur.reach, sel(e.get(cur.st, e.allocComp()), fr.regs[x].T))
 			r := fr.regs[x]
 			r.SubKey = "sub_" + e.structName(st) + "_" + sanitize(st.Underlying().(*types.Struct).Field(x.Field).Name())
 			r.SubOwner = base.T
@@ -919,6 +938,7 @@ func (e *Enc) execAlloc(fr *Frame, x *ssa.Alloc, cur *pathState) {
 	switch {
 	case isObjStruct(t):
 		r := e.newObject(cur, "obj_"+sanitize(x.Comment))
+		e.allocSubObjects(cur, r, t)
 		e.zeroStruct(r, t, cur.st)
 		e.setReg(fr, x, Val{T: r, S: "Ref"})
 	case isArrayType(t):
@@ -1151,7 +1171,7 @@ func (e *Enc) execIndexAddr(fr *Frame, x *ssa.IndexAddr, cur *pathState) {
 	case *types.Slice:
 		e.safety(fr, cur, "bounds", x.Pos(), fmt.Sprintf("(and (<= 0 %s) (< %s (s_len %s)))", idx.T, idx.T, base.T), x)
 		c := e.sliceComp(t.Elem())
-		i := "(+ (s_off " + base.T + ") " + idx.T + ")"
+		i := "(sidx (s_off " + base.T + ") " + idx.T + ")"
 		fr.regs[x] = Val{T: "nil", S: "Ref", Loc: &Loc{Kind: "elem", Comp: c.Name, Base: "(s_arr " + base.T + ")", Idx: i, Typ: t.Elem()}, Typ: x.Type()}
 	case *types.Pointer:
 		arr := t.Elem().Underlying().(*types.Array)
@@ -1427,8 +1447,8 @@ func (e *Enc) execSelect(fr *Frame, x *ssa.Select, cur *pathState) {
 	}
 	// context.Done(): if the channel is ctx.Done() the branch is enabled only when done
 	for i, s := range x.States {
-		if cv, ok := fr.regs[s.Chan]; ok && cv.T != "" && strings.HasPrefix(cv.T, "(ctx_done_chan ") {
-			ctx := strings.TrimSuffix(strings.TrimPrefix(cv.T, "(ctx_done_chan "), ")")
+		if cv, ok := fr.regs[s.Chan]; ok && cv.CtxOf != "" {
+			ctx := cv.CtxOf
 			done := e.ctxDone(ctx, cur)
 			e.assume(implies(eq(idx, fmt.Sprint(i)), done))
 			if !x.Blocking && len(x.States) == 1 {
